@@ -21,7 +21,7 @@ import (
 func init() {
 	Register(&Monitor{
 		ID: "C07",
-		Rule: "per case ~400 calls of concat, starts-with, contains, substring-before, substring-after, substring (2 and 3 args), string-length, normalize-space, translate with argument strings from {empty, ASCII, 2/3/4-byte scalars, combining sequences, the four XML whitespace characters, NBSP / EM SPACE / U+2028, repeats} passed through variables, positions and lengths from {integers in/out of range, fractions incl. +-0.5 ties, negatives, NaN, +-Infinity}, translate maps with overlaps, duplicates, shorter/longer third argument, multi-byte on either side; zero-argument forms from context nodes; " +
+		Rule: "per case ~400 calls of concat, starts-with, contains, substring-before, substring-after, substring (2 and 3 args), string-length, normalize-space, translate with argument strings from {empty, ASCII, 2/3/4-byte scalars, combining sequences, the four XML whitespace characters, NBSP / EM SPACE / U+2028, repeats} passed through variables, positions and lengths from {integers in/out of range, fractions incl. +-0.5 ties, negatives, NaN, +-Infinity}, translate maps with overlaps, duplicates, shorter/longer third argument, multi-byte on either side; zero-argument forms from context nodes; node-set arguments of several nodes (paths, unions, caller-ordered variables), which stand for the string-value of the first node in document order; " +
 			"oracle: reference model over []rune (substring by the literal predicate round(p) <= q < round(p)+round(l)); utf8.ValidString of every result; relations concat(substring-before(s,t),t,substring-after(s,t)) = s when contains(s,t), string-length(concat(a,b)) additive, normalize-space idempotent, translate(s,a,a) = s. distinct_nontrivial = distinct (function, argument classes, result)",
 		NCases: func(tier string) int { return map[string]int{"quick": 2500, "thorough": 100000}[tier] },
 		Case:   c07Case,
@@ -264,6 +264,48 @@ func c07Case(r *evid.Run, tier string, idx int, g *rng.R) {
 		if e1 != nil || tr != s {
 			viol("relation/translate-identity", fmt.Sprintf("translate(%q,%q,%q) = %s (%v)", s, t, t, bridge.Show(tr), errStr(e1)))
 		}
+	}
+	// node-set arguments: every string argument given as a node-set stands for the string-value of
+	// its first node in document order — paths, unions, and caller-ordered variables of several nodes
+	{
+		var pick []*adoc.Node
+		for _, x := range d.All {
+			if x.Kind != adoc.NS && g.P(40) {
+				pick = append(pick, x)
+			}
+		}
+		set := refeval.NodeSet(adoc.SortDoc(pick))
+		lib := append(xsel.NodeSet{}, w.m.Lib(set).(xsel.NodeSet)...)
+		rng.Shuffle(g, lib)
+		w.env.Vars = map[refeval.Name]refeval.Value{{Local: "ns"}: set}
+		nsv := xast.Var{Local: "ns"}
+		all := xast.Abs(xast.DS(), xast.S("child", xast.NodeT()))
+		txt := xast.Abs(xast.DS(), xast.S("child", xast.Test{Kind: xast.TText}))
+		attrs := xast.Abs(xast.DS(), xast.Step{Axis: "attribute", Test: xast.AnyT(), Abbrev: true})
+		needles := []string{"a", "1", " ", "é", "b", "x", "0"}
+		for _, n := range d.All {
+			if v := n.StringValue(); v != "" && g.P(30) {
+				rs := []rune(v)
+				needles = append(needles, string(rs[g.Intn(len(rs)):]), string(rs[:1+g.Intn(len(rs))]))
+			}
+		}
+		for i := 0; i < 24; i++ {
+			arg := rng.Pick(g, []xast.Expr{nsv, all, txt, attrs, xast.Binary{Op: "|", L: attrs, R: txt}, xast.Rel(xast.S("descendant", xast.AnyT()))})
+			lit := xast.Lit{S: rng.Pick(g, needles)}
+			if strings.ContainsAny(lit.S, "'\"") {
+				lit.S = "a"
+			}
+			e := rng.Pick(g, []xast.Expr{
+				xast.Fn("contains", arg, lit), xast.Fn("starts-with", arg, lit), xast.Fn("substring-before", arg, lit), xast.Fn("substring-after", arg, lit),
+				xast.Fn("contains", lit, arg), xast.Fn("string-length", arg), xast.Fn("normalize-space", arg), xast.Fn("translate", arg, lit, xast.Lit{S: "#"}),
+				xast.Fn("concat", arg, lit, arg), xast.Fn("substring", arg, xast.N(2), xast.N(3)), xast.Fn("starts-with", lit, arg),
+			})
+			if v, ok := w.check(r, "nodeset-argument/"+opOf(e), idx, d.Root, e, false, xsel.WithVariable("ns", lib)); ok {
+				r.Tab("function", "node-set argument: "+opOf(e), 1)
+				r.Sig("nsarg|"+opOf(e)+"|"+bridge.Show(v), true)
+			}
+		}
+		w.env.Vars = nil
 	}
 	// zero-argument forms from context nodes
 	for _, node := range d.All {
